@@ -124,6 +124,12 @@ class Ctx:
                     return {'status': 'violated', 'clause': 'ensures ' + ast.unparse(a), 'observed': 'clause evaluation failed: %r on result %s' % (e, _short(result))}
                 if not ok:
                     return {'status': 'violated', 'clause': 'ensures ' + ast.unparse(a), 'observed': 'result %s' % _short(result)}
+        for cl in c.of('establishes'):
+            for k2, a in cl.kw.items():
+                want = self.ev(a, env_post)
+                have = getattr(kwargs['self'], k2, None)
+                if not dsl.defines(have, want):
+                    return {'status': 'violated', 'clause': 'establishes self.%s == %s' % (k2, ast.unparse(a)), 'observed': 'self.%s = %s' % (k2, _short(have))}
         for cl in c.of('fresh'):
             for k, v in kwargs.items():
                 if isinstance(v, np.ndarray) and isinstance(result, np.ndarray) and np.shares_memory(v, result):
@@ -141,6 +147,8 @@ def _same(a, b):
         return len(a) == len(b) and all(_same(x, y) for x, y in zip(a, b))
     if isinstance(a, dict) and isinstance(b, dict):
         return a.keys() == b.keys() and all(_same(a[k], b[k]) for k in a)
+    if hasattr(a, '__dict__') and hasattr(b, '__dict__') and type(a) is type(b):
+        return _same(vars(a), vars(b))
     try:
         return bool(a == b)
     except Exception:
@@ -202,8 +210,27 @@ def gen_values(sort_src, rng, p_hint, budget):
         return out
     if s == 'SetOf(Int)':
         return [set(c) for r in range(0, 4) for c in itertools.combinations(range(4), r)]
-    if s in ('Arr1', 'Arr1i'):
-        return [np.array(v, dtype=float if s == 'Arr1' else int) for n in (1, 2, 3) for v in itertools.product((0, 1, -2), repeat=n)]
+    if s.startswith('Obj('):
+        cls = ast.literal_eval(ast.parse(sort_src, mode='eval').body.args[0])
+        if cls.endswith('NormalDistribution'):
+            from sempler.normal_distribution import NormalDistribution
+            if 'mean=' not in s:
+                return [object.__new__(NormalDistribution)]
+            out = []
+            for p in (1, 2, 3, 4):
+                for _ in range(3):
+                    L = np.array([[rng.choice((-2, -1, 0, 1, 2, 0.5)) if j <= i else 0 for j in range(p)] for i in range(p)], dtype=float)
+                    C = L @ L.T + np.eye(p) * rng.choice((0.5, 1, 2))
+                    m = np.array([rng.choice((-3, -1, 0, 2, 0.5)) for _ in range(p)], dtype=float)
+                    out.append(NormalDistribution(m, C))
+            return out
+        raise KeyError(sort_src)
+    if s == 'Arr1i':
+        out = [np.array(v, dtype=int) for n in (0, 1, 2, 3) for v in itertools.permutations(range(4), n)]
+        out += [np.array(v, dtype=int) for v in ((0, 0), (1, 1, 2), (2, 0, 2), (4,), (-1,))]
+        return out
+    if s in ('Arr1',):
+        return [np.array(v, dtype=float) for n in (0, 1, 2, 3) for v in itertools.product((0, 1.5, -2), repeat=n)]
     raise KeyError(sort_src)
 
 
@@ -235,7 +262,7 @@ def search(ctx, q, seed=0, budget=300, max_calls=20000, stop_on_first=True):
         if r['status'] == 'pre-false':
             continue
         calls += 1
-        key = repr([(n, np.asarray(v).tolist() if isinstance(v, np.ndarray) else (sorted(v) if isinstance(v, set) else v)) for n, v in zip(names, combo)])
+        key = repr([(n, _jsonable(v)) for n, v in zip(names, combo)])
         if key not in seen:
             seen.add(key)
             if any((isinstance(v, np.ndarray) and np.any(v != 0)) for v in combo):
@@ -262,6 +289,8 @@ def _jsonable(v):
         return {'dict': [[_jsonable(k), _jsonable(x)] for k, x in v.items()]}
     if isinstance(v, list):
         return [_jsonable(x) for x in v]
+    if hasattr(v, '__dict__') and type(v).__module__.startswith('sempler'):
+        return {'obj': type(v).__module__ + '.' + type(v).__name__, 'attrs': {k: _jsonable(x) for k, x in vars(v).items()}}
     return v
 
 
@@ -275,6 +304,12 @@ def _unjson(v):
             return tuple(_unjson(x) for x in v['tuple'])
         if 'dict' in v:
             return {(_hashable(_unjson(k))): _unjson(x) for k, x in v['dict']}
+        if 'obj' in v:
+            mod, cls = v['obj'].rsplit('.', 1)
+            o = object.__new__(getattr(importlib.import_module(mod), cls))
+            for k, x in v.get('attrs', {}).items():
+                setattr(o, k, _unjson(x))
+            return o
     if isinstance(v, list):
         return [_unjson(x) for x in v]
     return v
